@@ -578,6 +578,22 @@ def m_index(ex, c, a, m):
     return base.field(i)
 
 
+@model(r'<(?:\[(?!u8\]).+\]|Vec<(?!u8>).+>) as Index(Mut)?<(?:std::ops::)?(RangeTo|RangeFrom|Range|RangeFull)<usize>>>::index(_mut)?')
+def m_list_slice_index(ex, c, a, m):
+    v = d(a[0])
+    r, kind = a[1], m.group(2)
+    n = len(v)
+    lo, hi = 0, n
+    if kind == 'RangeTo':
+        hi = r.fields[0]
+    elif kind == 'RangeFrom':
+        lo = r.fields[0]
+    elif kind == 'Range':
+        lo, hi = r.fields[0], r.fields[1]
+    lo, hi = _slice(ex, v, lo, hi, 'slice')
+    return ValRef([Ref(v, i).get() for i in range(lo, hi)])
+
+
 @model(r'<(?:\[u8\]|Vec<u8>) as Index(Mut)?<(?:std::ops::)?(RangeTo|RangeFrom|Range|RangeFull)<usize>>>::index(_mut)?')
 def m_slice_index(ex, c, a, m):
     base = a[0]
